@@ -177,13 +177,18 @@ func sequence(r *ev.Run, c *ev.Case, seqNo int, mon *chalMon) {
 	var prevChallenge []byte
 	var prevSig *ssh.Signature
 	nruns := 2 + rng.Intn(5)
+	seqLogin := gsrig.LogName(rng)
 	for run := 0; run < nruns; run++ {
 		if r.NumViolations() > 10 {
 			return
 		}
 		beh := behaviours[rng.Intn(len(behaviours))]
 		dir := dirStates[rng.Intn(len(dirStates))]
-		logName := gsrig.LogName(rng)
+		// mostly the same user comes back within a sequence (replay and freshness are about that)
+		logName := seqLogin
+		if rng.Intn(3) == 0 {
+			logName = gsrig.LogName(rng)
+		}
 		rec := runRec{Behaviour: beh, Dir: dir, KeyType: user.Name, LogName: logName}
 		// directory
 		for _, f := range []string{logName, logName + ".pub", logName + ".doe", logName + ".pub.bak", logName + "-2.pub", "zz-target-" + logName} {
